@@ -43,8 +43,10 @@ def _collect(src):
     return src, states, r["transitions"]
 
 
-def check_rebalance(sb, ref, cs, fee, measure, alloc, second=True):
-    """One rebalance transition from a state; returns (messages, nontrivial?)."""
+def check_rebalance(sb, ref, cs, fee, measure, alloc, second=True, preview_sb=None):
+    """One rebalance transition from a state; returns (messages, nontrivial?).
+    With preview_sb the same Rebalancing object is first asked for its trades on ANOTHER account state
+    (a preview, as Rebalancing.make_trades is documented to allow) before being executed here."""
     b = unsnap(sb)
     pre_nlv = ref.nlv(b.exchange, cs)
     if pre_nlv is None or pre_nlv <= 0:
@@ -52,6 +54,11 @@ def check_rebalance(sb, ref, cs, fee, measure, alloc, second=True):
     now = (b._last_accrual or T0) + timedelta(days=1)
     rb = Rebalancing(contracts=list(cs), allocation=list(alloc), measure=measure, time=now)
     books = {c.symbol: (b.exchange[c].bid_price, b.exchange[c].ask_price) for c in cs}
+    if preview_sb is not None:
+        try:
+            rb.make_trades(unsnap(preview_sb))
+        except Exception:
+            pass
     try:
         b.rebalance(rb)
     except EndOfEpisodeError:
@@ -117,12 +124,19 @@ def _work(unit):
     cs = ledger.contracts_of(universe)
     reset_clock()
     out = {"transitions": 0, "violations": [], "nontrivial": 0, "outcomes": set()}
+    first_sb = chunk[0][0] if chunk else None
     for sb, ref, hist in chunk:
         for measure, targets in ((("weight", W_TARGETS), ("nr-contracts", N_TARGETS)) if len(cs) == 2 else
                                  (("weight", W_TARGETS3), ("nr-contracts", N_TARGETS3))):
             for alloc in targets:
                 msgs, traded = check_rebalance(sb, ref, cs, fee, measure, alloc)
                 out["transitions"] += 1
+                if not msgs and sb is not first_sb and alloc in targets[:3]:
+                    # preview on a different account state, then execute here
+                    msgs, _ = check_rebalance(sb, ref, cs, fee, measure, alloc, second=False, preview_sb=first_sb)
+                    out["transitions"] += 1
+                    if msgs:
+                        msgs = ["after a preview (make_trades) of the same request on another account state: " + m for m in msgs]
                 if traded:
                     out["nontrivial"] += 1
                 if msgs:
